@@ -36,6 +36,8 @@ class ProtoMonitor:
         g['start_after_fail'] = F   # C07: a transitive dependent of a failed target was started
         g['ok_on_fail'] = F         # C07: a target acknowledged (Ok) in the very step its execution failed
         g['kill_noreap'] = F
+        g['truth_failed'] = F       # environment truth: some script exited unsuccessfully / could not be spawned
+        g['misclassified'] = F      # a script that exited unsuccessfully was treated as Skipped/Completed
         g['nnotify'] = z3.BitVecVal(0, 2)
         return g
 
@@ -102,6 +104,18 @@ class ProtoMonitor:
             emits_ok = obs.any('emit', lambda key, t=t: key[0] == t and key[2][0] == 'Ok' and key[2][2] == 't%d' % t)
             okf = z3.Or(okf, z3.And(res_err, emits_ok))
             g2['failed.%d' % t] = z3.Or(g['failed.%d' % t], res_err)
+        tf = g['truth_failed']
+        mis = g['misclassified']
+        orc = getattr(sysm, 'oracles', {}).get(k, {})
+        for t in range(n):
+            ex = orc.get(('bf%d' % t, 'exit_success'))
+            if ex is not None:
+                bad_exit = z3.And(obs.get('proc_exit', t), z3.Not(ex))
+                tf = z3.Or(tf, bad_exit)
+                mis = z3.Or(mis, z3.And(bad_exit, z3.Or(obs.get('build_result', (t, 0)), obs.get('build_result', (t, 1)))))
+            tf = z3.Or(tf, obs.get('spawn_failed', t))
+        g2['truth_failed'] = tf
+        g2['misclassified'] = mis
         g2['bad_start'] = bad_start
         g2['bad_word'] = bad_word
         g2['bad_decide'] = bad_decide
